@@ -6,11 +6,12 @@
     * `reextent_extents`      after `reextent(x)` (any overload, any prior state) the array reports the extensions `x` (collapsed)
     * `reextent_noop`         reextent to the current extensions: same block, same layout, same heap — storage, iterators, views stay valid
     * `reextent_moved_law`    `std::move(A).reextent(x)`: extensions `x`, every element value-initialised (indeterminate for a trivial `T`)
-    * `reextent_law_partial`  the element part of the law for the lvalue overloads (see the comment there)
-    * `clear_empty`, `reshape_flat`, `assign_exact`, `assign_range_exact`
+    * `reextent_law`, `reextent_law_values`  the law for the lvalue overloads: common part kept, the rest = fill / value-initialised
+    * `clear_empty`, `reshape_flat`, `assign_exact`, `assign_range_exact`, `assign_list_exact`
 -/
 import MultiProofs.OwnStep
 import MultiProofs.OwnObs
+import MultiProofs.OwnLaw
 
 namespace Multi
 namespace C06
@@ -60,41 +61,75 @@ theorem reextent_moved_law (cfg : Cfg α) (p : Pool α) (hi : Inv p) (k : Nat) (
   refine ⟨i1, fun j hj => by rw [a1]; exact upd_other _ _ hj, ?_⟩
   rw [a1]; simp [specStep, absPool_some ha, absArr]
 
-/-- **the element part of the law for `reextent(x)` / `reextent(x, v)` on an lvalue.**  PARTIAL.
-    Full statement (`reextent_law`): for a valid array `a` in a pool satisfying `Inv`, `x` with `ExtsOK x`, `¬ x == extensions(a)`,
-    `(h', a') := reextent cfg h a x fill`:  `Valid h' a'`, the other arrays keep their values, and for every index tuple
-    `idx ∈ box (collapse x)`:  `a'[idx] = a[idx]` if `idx ∈ box (extensions a)`, else `a'[idx] = v` (`fill = some v`) resp. the
-    value-initialised / indeterminate cell (`fill = none`).
-    Proved: the new array is built for `x` (`reextent_extents`); it lives in a block that did not exist before, of exactly `Π sizes`
-    cells, every cell of which was initialised with the fill / value-initialised cell before the common part is copied; the copy reads
-    the old block only through the slice `a(is₀, is₁, …)` and writes the new block only through the same slice of the new array, with
-    `is = extensions(a) ∩ extensions(a')` (this theorem: the operation is that composition, and is skipped when the intersection is
-    empty); the old block is released last.
-    Missing: the slice-to-slice element copy as a map on cells (same missing lemma as in C04.abs_step_views_partial, plus the fact,
-    available from C01.paren_refines, that the k-th element of both slices has the same absolute index tuple).
-    The full law is checked on every reextent of the correspondence run against the reference model inside the harness
-    (`REF-MISMATCH`), for both element types, all D 1..4, growing / shrinking / shifted / empty extents and non-zero index bases. -/
-theorem reextent_law_partial (cfg : Cfg α) (h : Heap α) (a : Arr) (x : List Ext) (fill : Option α) (hne : Exts.eqv x a.exts = false) :
-    let tl := Layout.ofExts x
-    let h1 := (h.alloc tl.numElements).1
-    let p := (h.alloc tl.numElements).2
-    let h2 := match fill with
-      | none => valueConstruct cfg h1 p tl.numElements
-      | some v => h1.fillN p tl.numElements.toNat (some v)
-    let is := Exts.inter a.exts tl.exts
-    reextent cfg h a x fill =
-      (deallocate (if Exts.numElements is = 0 then h2 else copyElems h2 a.base (applyExts a.view is) p (applyExts (⟨p, tl⟩ : Arr).view is)) a,
-       ⟨p, tl⟩) := by
-  unfold reextent
-  simp only [hne, Bool.false_eq_true, if_false]
-  rfl
+/-- **the law of `reextent(x)` / `reextent(x, v)` on an lvalue, values.**  For an array of dimensionality ≥ 1 in a pool satisfying the
+    invariant, any well-formed `x` of the same dimensionality and any prior state: the invariant holds afterwards, no other array's value
+    changes, and the array's value is: unchanged if `x` are the current extensions, otherwise `reextVal` — extensions `x` (collapsed), at
+    every index tuple of `x` the old element if the tuple lies in the old extensions, the fill value `v` (resp. the value-initialised
+    cell, or an indeterminate one for a trivially default constructible `T`) otherwise. -/
+theorem reextent_law_values (cfg : Cfg α) (p : Pool α) (hi : Inv p) (k : Nat) (a : Arr) (ha : p.arrs k = some a) (x : List Ext) (hx : ExtsOK x)
+    (hlen : x.length = a.dim) (hD : a.dim ≠ 0) (fill : Option α) :
+    let p1 := step cfg p (.reext k x fill)
+    Inv p1 ∧ (∀ j, j ≠ k → absPool p1 j = absPool p j) ∧
+    absPool p1 k = some (if Exts.eqv x a.exts = true then absArr p.heap a else reextVal cfg (absArr p.heap a) x fill) := by
+  intro p1
+  obtain ⟨i1, a1⟩ := step_refines cfg p hi (.reext k x fill) ⟨a, ha, hx, hlen, hD⟩
+  refine ⟨i1, fun j hj => by rw [a1]; exact upd_other _ _ hj, ?_⟩
+  rw [a1]; simp [specStep, absPool_some ha, absArr]
 
-/-- the freshly initialised block of `reextent_law_partial`: before the common part is copied every element of the new array equals the
-    fill value (resp. the value-initialised / indeterminate cell) -/
-theorem reextent_fresh_block (cfg : Cfg α) (h : Heap α) (x : List Ext) (hx : ExtsOK x) (v : α) :
-    let r := fillCtor h x v
-    Valid r.1 r.2 ∧ absArr r.1 r.2 = ⟨collapse x, List.replicate (nElems x).toNat (some v)⟩ :=
-  ⟨(fillCtor_outcome h hx v).valid, (fillCtor_outcome h hx v).abs⟩
+/-- **the law of `reextent`, element by element** (what the property says): after `A.reextent(x)` / `A.reextent(x, v)`
+    * the array reports the extensions `x` (collapsed: all `[0,0)` if some extent of `x` is empty),
+    * every element whose index tuple lies in both the old and the new extensions keeps its value,
+    * every other element equals the fill cell (`v`; without `v`: `T{}`, or indeterminate for a trivially default constructible `T`),
+    * the pool invariant holds (the array is valid, owns a block no other array owns) and no other array changes. -/
+theorem reextent_law (cfg : Cfg α) (p : Pool α) (hi : Inv p) (k : Nat) (a : Arr) (ha : p.arrs k = some a) (x : List Ext) (hx : ExtsOK x)
+    (hlen : x.length = a.dim) (hD : a.dim ≠ 0) (fill : Option α) :
+    let p1 := step cfg p (.reext k x fill)
+    Inv p1 ∧ (∀ j, j ≠ k → absPool p1 j = absPool p j) ∧
+    ∃ a', p1.arrs k = some a' ∧ a'.exts = collapse x ∧
+      (∀ idx, InBox (collapse x) idx → InBox a.exts idx → readAt p1.heap a' idx = readAt p.heap a idx) ∧
+      (∀ idx, InBox (collapse x) idx → ¬ InBox a.exts idx → readAt p1.heap a' idx = some (fillCell cfg fill)) := by
+  intro p1
+  obtain ⟨i1, hoth, hval⟩ := reextent_law_values cfg p hi k a ha x hx hlen hD fill
+  have hva := hi.valid k a ha
+  refine ⟨i1, hoth, ?_⟩
+  -- the new occupant of slot k
+  have hsome : ∃ a', p1.arrs k = some a' := by
+    have : absPool p1 k ≠ none := by rw [hval]; simp
+    cases h : p1.arrs k with
+    | none => simp [absPool, h] at this
+    | some a' => exact ⟨a', rfl⟩
+  obtain ⟨a', ha'⟩ := hsome
+  have hva' := i1.valid k a' ha'
+  have habs : absArr p1.heap a' = (if Exts.eqv x a.exts = true then absArr p.heap a else reextVal cfg (absArr p.heap a) x fill) := by
+    have := hval; rw [absPool_some ha'] at this; exact Option.some.inj this
+  by_cases he : Exts.eqv x a.exts = true
+  · -- same extensions: nothing changed
+    rw [if_pos he] at habs
+    have hcx : collapse x = a.exts := by
+      have : Exts.eqv a.exts x = true := by rw [eqv_comm]; exact he
+      exact eqv_collapse _ _ hva.exts_fix this
+    have hex : a'.exts = a.exts := congrArg AbsArr.exts habs
+    have hel : cellsOf p1.heap a' = cellsOf p.heap a := congrArg AbsArr.elems habs
+    refine ⟨a', ha', by rw [hex, hcx], ?_, ?_⟩
+    · intro idx _ hia
+      rw [(readAt_valid hva' (hex ▸ hia)).1, (readAt_valid hva hia).1, hel, hex]
+    · intro idx hin hnot; rw [hcx] at hin; exact absurd hin hnot
+  · rw [if_neg he] at habs
+    have hex : a'.exts = collapse x := congrArg AbsArr.exts habs
+    have hel : cellsOf p1.heap a' = (reextVal cfg (absArr p.heap a) x fill).elems := congrArg AbsArr.elems habs
+    refine ⟨a', ha', hex, ?_, ?_⟩
+    · intro idx hin hia
+      rw [(readAt_valid hva' (hex ▸ hin)).1, hel, hex, reextVal_at cfg _ x hx fill hin]
+      have : InBox (absArr p.heap a).exts idx := hia
+      rw [if_pos this]
+      obtain ⟨r1, r2⟩ := readAt_valid hva hia
+      rw [r1]
+      show some ((cellsOf p.heap a)[(rowMajor a.exts idx).toNat]?.getD none) = _
+      rw [List.getElem?_eq_getElem r2]; rfl
+    · intro idx hin hnot
+      rw [(readAt_valid hva' (hex ▸ hin)).1, hel, hex, reextVal_at cfg _ x hx fill hin]
+      have : ¬ InBox (absArr p.heap a).exts idx := hnot
+      rw [if_neg this]
 
 /-- **`clear()` (and `A = {}`) leave an empty valid array**; the other arrays keep their values -/
 theorem clear_empty (cfg : Cfg α) (p : Pool α) (hi : Inv p) (k : Nat) (a : Arr) (ha : p.arrs k = some a) (hD : a.dim ≠ 0) :
@@ -149,6 +184,24 @@ theorem assign_range_exact (cfg : Cfg α) (p : Pool α) (hi : Inv p) (k : Nat) (
   unfold assignRange
   simp only [hcond, if_false]
 
+/-- **`assign(first,last)` and assignment from an initializer list produce exactly the requested contents**, over any prior state, in
+    place (same rows and inner extensions: block and index bases kept) or not; `A = {}` clears; no other array changes -/
+theorem assign_list_exact (cfg : Cfg α) (p : Pool α) (hi : Inv p) (k : Nat) (a : Arr) (ha : p.arrs k = some a) (hD : a.dim ≠ 0)
+    (count : Int) (inner : List Ext) (vals : List α) (hes : ExtsOK (rangeExts count inner))
+    (hlen : (vals.length : Int) = nElems (rangeExts count inner)) :
+    let p1 := step cfg p (.assignr k count inner vals)
+    let p2 := step cfg p (.ilassign k count inner vals)
+    Inv p1 ∧ Inv p2 ∧ (∀ j, j ≠ k → absPool p1 j = absPool p j ∧ absPool p2 j = absPool p j) ∧
+    absPool p1 k = some (listVal (absArr p.heap a) count inner vals) ∧ (listVal (absArr p.heap a) count inner vals).elems = vals.map some ∧
+    absPool p2 k = some (if count = 0 then emptyVal a.dim else listVal (absArr p.heap a) count inner vals) := by
+  intro p1 p2
+  obtain ⟨i1, a1⟩ := step_refines cfg p hi (.assignr k count inner vals) ⟨a, ha, hD, hes, hlen⟩
+  obtain ⟨i2, a2⟩ := step_refines cfg p hi (.ilassign k count inner vals) ⟨a, ha, hD, hes, hlen⟩
+  refine ⟨i1, i2, fun j hj => ⟨by rw [a1]; exact upd_other _ _ hj, by rw [a2]; exact upd_other _ _ hj⟩, ?_, ?_, ?_⟩
+  · rw [a1]; simp [specStep, absPool_some ha]
+  · unfold listVal; split <;> rfl
+  · rw [a2]; simp [specStep, absPool_some ha, absArr, exts_length]
+
 /-! ### non-vacuity -/
 
 /-- `A(2×3, 7)`; `A.reshape(3×2)`; `A.assign(1×2 based at 5, 4)`; `A.clear()` — values as documented -/
@@ -158,6 +211,22 @@ example :
     specRun cfg (fun _ => none) ops 0 = some ⟨[⟨5, 6⟩, ⟨0, 2⟩], [some 4, some 4]⟩ ∧
     specRun cfg (fun _ => none) (ops ++ [.clear 0]) 0 = some ⟨[⟨0, 0⟩, ⟨0, 0⟩], []⟩ := by
   constructor <;> rfl
+
+/-- the documented value of a concrete reextent: 2×3 (all 7, one 9) → 3×2 with fill 5 keeps the common 2×2 block and fills the rest;
+    with index bases: [1,3)×[0,2) → [0,2)×[1,3) keeps the single common element (1,1) -/
+example :
+    let cfg : Cfg Int := ⟨true, 0⟩
+    let r1 := specRun cfg (fun _ => none) [.fill 0 [⟨0, 2⟩, ⟨0, 3⟩] 7, .write 0 [1, 1] 9, .reext 0 [⟨0, 3⟩, ⟨0, 2⟩] (some 5)] 0
+    let r2 := specRun cfg (fun _ => none) [.fill 0 [⟨1, 3⟩, ⟨0, 2⟩] 7, .write 0 [1, 1] 9, .reext 0 [⟨0, 2⟩, ⟨1, 3⟩] none] 0
+    r1.map (·.exts) = some [⟨0, 3⟩, ⟨0, 2⟩] ∧ r1.map (·.elems) = some [some 7, some 7, some 7, some 9, some 5, some 5] ∧
+    r2.map (·.exts) = some [⟨0, 2⟩, ⟨1, 3⟩] ∧ r2.map (·.elems) = some [none, none, some 9, none] := by
+  decide
+
+/-- the hypotheses of `reextent_law` are satisfiable: the history above is in domain from the empty pool -/
+example : InDomAll (⟨true, 0⟩ : Cfg Int) Pool.empty [.fill 0 [⟨0, 2⟩, ⟨0, 3⟩] 7, .reext 0 [⟨0, 3⟩, ⟨0, 2⟩] (some 5)] := by
+  refine ⟨⟨rfl, ?_⟩, ⟨_, rfl, ?_, rfl, by decide⟩, trivial⟩
+  · intro e he; simp at he; rcases he with he | he <;> subst he <;> decide
+  · intro e he; simp at he; rcases he with he | he <;> subst he <;> decide
 
 /-- the model on a concrete reextent: 2×3 → 3×2 keeps the common 2×2 block and fills the rest -/
 example :
